@@ -320,6 +320,13 @@ func checkCase(c Case) (Outcome, error) {
 		}
 		differ, planner = drv, drv
 	}
+	if c.Dialect == "postgres" && c.Flavour != "" {
+		drv, err := gm.OpenPostgres(c.Flavour)
+		if err != nil {
+			return out, fmt.Errorf("harness: %v", err)
+		}
+		differ, planner = drv, drv
+	}
 	var (
 		changes []schema.Change
 		err     error
